@@ -105,6 +105,24 @@ Mutations tried on scratch copies (all pass the 201 golden tests, `./check C17 -
 scanned before ASCMD; DecodeLine not skipping a consumed argument; ParamError exit(2); look-ahead not blanked for a
 following `+switch`; -o names handed out in reverse order.
 
+Extension "physical shape of key files" (checks/ext_keyfile.py, spec/KeyFile*.tla; its cases run inside the command line
+layer).  Added because a change of cmdarg.c ProcessFile() that left the read loop as soon as feof() was set - before the line
+just read was decoded - went unnoticed (it passes the 201 golden tests): a last line WITHOUT line end was silently dropped, so
+`-D SYM=val` / `-cpu` / `-i` on it never took effect and the same options gave another code file from the key file than from
+argv / ASCMD.  Both this file (factor `src`) and the command line layer wrote key files in one shape, every line + LF.  The
+missing dimension is the shape of the file between its bytes and its lines: KeyFile.tla models the file as characters and
+transcribes fgets (end-of-file indicator set when a byte is asked for and there is none) / ReadLn / the `while (!feof)` loop /
+DecodeLine's ClrBlanks and cut next to the text reading (lines between line ends, the rest behind the last one is a line
+unless empty); KeyFile_MC writes <= 3 occurrences (11 templates, code-affecting ones among them) on 1..3 lines x LF / CR-LF /
+alternating x last line terminated or not x 23 decorations (blanks / tabs in front, behind, between; empty, blank, remark
+lines; ^Z; 254 / 255 / more characters) x @k in argv / ASCMD=@k and checks ReaderReadsText, ScanIsFoldK, DeviationsAreNamedK,
+ShapeNeverMatters (any two shapes and the plain command line with the same occurrences: same scanner result), and refutes the
+reader variant LeaveAtEof; quick 2 628 / thorough about 8 700 shaped files are replayed (asl; thorough also p2bin, plist),
+judged like the other cases of the command line layer and compared byte for byte within their klass (same occurrences on
+the command line, in ASCMD, in the one-shape key files).  ^Z and lines beyond 255 characters: manual silent, drift only.
+No finding on the unchanged tree.  Mutations caught by the quick tier (exit 1): the seeded change (1 387 violations);
+by the replay of the quick cases: ReadLn() keeping the CR, ClrBlanks() skipping blanks only, fgets(Zeile, 255, ...).
+
 Extension "per-pass state under the report options" (checks/ext_passreports.py, spec/PassReports*.tla; TLC works beside
 the phases above, its programs join the option matrix as one more source family).  Added because a change of as.c
 AssembleFile() that ran ClearDefineList() only inside `if (MakeCrossList)` - without -C the #defines of the end of pass 1
